@@ -112,25 +112,46 @@ extern "C" void harness_c04_command_lastline() {
   WITNESS();
 }
 
-// insert_param_list: splits on blanks, no empty entries, every word inserted
+// insert_param_list: splits on blanks, no empty entries, every word inserted.
+// The set's insert is cut (the explicit specialisation below replaces libstdc++'s _M_insert_unique for
+// std::set<std::string>) and records the words, so no red-black tree with symbolic keys is built.
+static int g_nwords, g_wlen[4];
+static char g_w[4][WMAX + 1];
+typedef std::_Rb_tree<std::string, std::string, std::_Identity<std::string>, std::less<std::string>, std::allocator<std::string> > StrTree;
+template<> template<>
+std::pair<StrTree::iterator, bool> StrTree::_M_insert_unique<std::string>(std::string &&v) {
+  if (g_nwords < 4) {
+    int k = g_nwords, n = (int)v.size();
+    g_wlen[k] = n;
+    const char *d = v.data();
+    for (int i = 0; i < WMAX; i++) g_w[k][i] = i < n ? d[i] : 0;
+  }
+  g_nwords++;
+  return std::pair<StrTree::iterator, bool>(StrTree::iterator(nullptr), true);
+}
+
 extern "C" void harness_c04_param_list() {
   char l1[LMAX + 1];
   int n1 = sym_line(l1, LMAX);
   for (int i = 0; i < LMAX; i++) ASSUME(l1[i] != '#');
   std::string params(l1, (size_t)n1);
-  InterrogateBuilder *b = new InterrogateBuilder;
+  InterrogateBuilder *b = raw_builder();        // insert_param_list only hands the set on to insert()
+  g_nwords = 0;
   b->insert_param_list(b->_ignorefile, params);
-  // every maximal run of non-blank characters is a member; nothing else is (no empty string, no blank inside)
+  // reference: the maximal runs of non-blank characters, in order
   int words = 0;
+  bool ok = true;
   for (int i = 0; i < LMAX; i++)
     if (i < n1 && !blank(l1[i]) && (i == 0 || blank(l1[i - 1]))) {
       int e = i;
       for (int j = i; j < LMAX; j++) if (j < n1 && e == j && !blank(l1[j])) e = j + 1;
-      std::string w(l1 + i, (size_t)(e - i));
-      ASSERT(b->_ignorefile.count(w) == 1, "C04 insert_param_list inserts every blank-separated word");
+      if (words < 4) {
+        if (g_wlen[words] != e - i) ok = false;
+        for (int j = 0; j < LMAX; j++) if (j < e - i && g_w[words][j] != l1[i + j]) ok = false;
+      }
       words++;
     }
-  ASSERT(b->_ignorefile.size() <= (size_t)words, "C04 insert_param_list inserts nothing but the words");
-  ASSERT(b->_ignorefile.count(std::string()) == 0, "C04 insert_param_list never inserts an empty entry");
+  ASSERT(g_nwords == words, "C04 insert_param_list inserts one entry per blank-separated word, never an empty one");
+  ASSERT(ok, "C04 insert_param_list inserts exactly the blank-separated words, in order");
   WITNESS();
 }
